@@ -217,6 +217,15 @@ func doCorrupt(t *task, res *result, progress func()) {
 			masks = t.HdrMasks
 		}
 		for _, m := range masks {
+			if m == 0 {
+				// "zero the byte": the mask is the byte's own value
+				if b := final[t.File]; off < len(b) {
+					m = int(b[off])
+				}
+				if m == 0 {
+					continue
+				}
+			}
 			announce(replayDoc{Mode: "corrupt", Seg: t.Seg, Ops: t.Ops, Long: t.Long, File: t.File, Off: off, Mask: m})
 			fs, hit := evalCorruption(c, final, t.File, off, byte(m))
 			res.Cases++
